@@ -70,18 +70,25 @@ void run_printf(Ctx &c, std::string in, unsigned variant) {
 		// A format in which every directive is positional (and none uses `*`) consumes exactly the arguments 1..max position: the
 		// argument area then has exactly that many slots, so that a fetch of an argument the format never names is an out-of-bounds read.
 		// Formats that mix numbered and unnumbered directives (undefined in POSIX) keep nine spare slots.
-		// the directives are scanned the way a printf implementation reads them: '%', then either "<digits>$" (numbered) or anything else (unnumbered)
-		size_t maxpos = 0, dollars = 0, directives = 0; bool star = in.find('*') != std::string::npos; bool zero_pos = false;
-		for(size_t i = 0; i < in.size(); i++) {
+		// Only formats of a strict shape get the exact area: every '%' starts either "%%" or a specification of the form
+		// %<position>$ [flags, width, precision and length characters, none of them '$', '*' or '%'] <one of d i o u x X c s p>, with positions
+		// 1..64. Anything else (a second "$", "%0$", a position without digits, '*', an unknown conversion, ...) is read by an implementation
+		// in its own way and keeps the nine spare slots.
+		size_t maxpos = 0; bool strict = true;
+		for(size_t i = 0; i < in.size() && strict; i++) {
+			if(in[i] == '$' || in[i] == '*') { strict = false; break; }
 			if(in[i] != '%') continue;
 			if(i + 1 < in.size() && in[i + 1] == '%') { i++; continue; }
-			directives++;
 			size_t j = i + 1, v = 0; bool digits = false;
 			while(j < in.size() && in[j] >= '0' && in[j] <= '9' && v <= 1000) { v = v * 10 + (size_t)(in[j] - '0'); j++; digits = true; }
-			if(digits && j < in.size() && in[j] == '$') { dollars++; if(v == 0) zero_pos = true; if(v <= 64) maxpos = std::max(maxpos, v); else zero_pos = true; }
+			if(!digits || j >= in.size() || in[j] != '$' || v < 1 || v > 64) { strict = false; break; }
+			j++;
+			while(j < in.size() && strchr("-+ #0'123456789.hlzjt", in[j])) j++;
+			if(j >= in.size() || !strchr("diouxXcsp", in[j])) { strict = false; break; }
+			maxpos = std::max(maxpos, v);
+			i = j;
 		}
-		// ("%0$d" is not a numbered directive - positions start at 1 - and frigg reads it as an unnumbered one: such formats are mixed ones)
-		if(!star && !zero_pos && dollars >= directives && maxpos >= 1) { nslots = maxpos; c.tag("printf-all-positional-exact-args"); }
+		if(strict && maxpos >= 1) { nslots = maxpos; c.tag("printf-all-positional-exact-args"); }
 		else nslots += 9;
 	}
 	// every slot is a valid pointer to a NUL-terminated string that is also a terminated wide string
